@@ -240,12 +240,29 @@ def run_cross_record(rep, facts):
     rep.floor("R1.7", "record-end rules", n, 2)
 
 
+def run_next_preamble(rep, facts):
+    """R1.8: on a kept connection the next preamble is decoded by a request parser built from the stream parser's buffer: it must start at
+    exactly the unread input (rules of C05, re-evaluated)."""
+    from . import c05
+    rep.rule("R1.8", "the request parser for the next request of a connection starts at the unread input: into_request_parser hands over the unparsed bytes at [0, n) "
+                     "and the constructor stores that buffer and length (R5.3)")
+    sr = check.Report("tmp", "quick")
+    c05.run(sr, facts)
+    n = 0
+    for i in sr.instances:
+        if i["rule"] == "R5.3" and i["instance"] in ("into_request_parser", "request-constructor"):
+            n += 1
+            (rep.ok if i["status"] == "ok" else rep.violation)("R1.8", i["instance"], i["detail"], i["loc"])
+    rep.floor("R1.8", "hand-over rules", n, 2)
+
+
 def main(rep, tier):
     f = F.load(("async", "http"))
     rep.configs.append({"features": "async,http", "profile": "debug", "bodies": len(f.bodies)})
     check.guard(rep, "R1", run, f)
     check.guard(rep, "R1.6", run_buffer_premise, f)
     check.guard(rep, "R1.7", run_cross_record, f)
+    check.guard(rep, "R1.8", run_next_preamble, f)
     rep.floor("R1", "rule instances", len([i for i in rep.instances if i["status"] == "ok"]), 10)
     import check as _c
     _c.witnesses(rep, "C01", f)
